@@ -88,7 +88,7 @@ func vhDelivered(s *Server, d *commandDetails, h *Hook) []string {
 	return vhDetectsOf(FenceMatch(h.Name, h.ScanWriter, h.Fence, h.Metas, d))
 }
 
-//verif:cfg b_detect=all_32_subsets+default b_positions=6x6(2_inside,4_outside,crossing_W-E_and_N-S) b_fence=WITHIN|INTERSECTS_BOUNDS b_other_hooks=1 b_definition=first|redefined_from_another_area|redefined_from_another_DETECT_list b_delete=DEL|PDEL ignorego=1
+//verif:cfg b_detect=all_32_subsets+default b_positions=6x6(2_inside,4_outside,crossing_W-E_and_N-S) b_fence=WITHIN|INTERSECTS_BOUNDS b_other_hooks=2(one_over_the_same_area_with_NOFIELDS,_evaluated_before_or_after) b_definition=first|redefined_from_another_area|redefined_from_another_DETECT_list b_delete=DEL|PDEL ignorego=1
 func VH_C05_static_fence() {
 	s := vhServer()
 	// DETECT subset (32 = default, i.e. no DETECT clause)
@@ -125,6 +125,15 @@ func VH_C05_static_fence() {
 	}
 	_, _, err := vhDo(s, args...)
 	vassert("C05.setchan_ok", err == nil)
+	// a second fence over the same area that differs only in NOFIELDS: the same change is evaluated for both (in
+	// either order), and each message follows its own fence's options
+	qargs := []string{"SETCHAN", "quiet", kind, "fleet", "NOFIELDS", "FENCE"}
+	if !all {
+		qargs = append(qargs, "DETECT", list)
+	}
+	vhDo(s, append(qargs, "BOUNDS", "0", "0", "10", "10")...)
+	hq := vhHook(s, "quiet")
+	vassert("C05.quiet_hook_registered", hq != nil)
 	// another fence elsewhere, so that the hook trees hold more than one entry
 	vhDo(s, "SETCHAN", "other", "WITHIN", "fleet", "FENCE", "DETECT", "cross,enter", "BOUNDS", "40", "40", "50", "50")
 	h := vhHook(s, "ch")
@@ -142,7 +151,19 @@ func VH_C05_static_fence() {
 	}
 	// the move
 	_, d2, _ := vhDo(s, "SET", "fleet", "truck", "FIELD", "speed", "7", "POINT", vhPos[p2][0], vhPos[p2][1])
+	quietFirst := (sub+p1+p2)%2 == 0 // both evaluation orders occur across the explored combinations
+	var mq []string
+	if quietFirst {
+		mq = FenceMatch(hq.Name, hq.ScanWriter, hq.Fence, hq.Metas, &d2)
+	}
 	m2 := FenceMatch(h.Name, h.ScanWriter, h.Fence, h.Metas, &d2)
+	if !quietFirst {
+		mq = FenceMatch(hq.Name, hq.ScanWriter, hq.Fence, hq.Metas, &d2)
+	}
+	for _, m := range mq {
+		vassert("C05.nofields_fence_carries_no_fields", !gjson.Get(m, "fields").Exists() && gjson.Get(m, "hook").String() == "quiet" && gjson.Get(m, "id").String() == "truck")
+	}
+	vassert("C05.same_detection_for_both_fences", len(mq) == len(m2))
 	want2 := vhExpected(vhPosInside[p1], vhPosInside[p2], vhCrosses(p1, p2), det, all)
 	got2 := vhDetectsOf(m2)
 	vobs("move", p1, p2, sub, len(got2))
